@@ -196,6 +196,8 @@ MUTANTS = [
     ("fixrevert_d3_shallow_copy", [(UTIL, "        return copy.deepcopy(tree_result)", "        return tree_result.copy()")], ["C11"]),
     ("fixrevert_d9_unicode_modal_mark", [(AEP, "MODAL_MARK: /(?a:M(uss)?|S(oll)?|K(ann)?)/i", "MODAL_MARK: /M(uss)?|S(oll)?|K(ann)?/i")], ["C02"]),
     ("fixrevert_d10_unicode_repeatability", [(CEP, r"REPEATABILITY: /[0-9]+\.{2}[1-9][0-9]*/", r"REPEATABILITY: /\d+\.{2}[1-9]\d*/")], ["C02"]),
+    ("fixrevert_d11_keyword_call_on_cache_hit", [(UTIL, """            expression = args[0] if args else next(iter(kwargs.values()), None)
+            parsing_logger.log(_CACHE_LOG_LEVEL, "The parsed tree for '%s' has been loaded from the cache", expression)""", """            parsing_logger.log(_CACHE_LOG_LEVEL, "The parsed tree for '%s' has been loaded from the cache", args[0])""")], ["C11", "C02"]),
     ("fixrevert_d7_931_midnight", [(TAG, "    if utc_offset == timedelta(0):", "    if utc_offset == timedelta(0) and date_time.time() == time(0, 0, 0):")], ["C20"]),
     ("fixrevert_d8_overflow", [(TAG, "    except OverflowError as overflow_error:", "    except ZeroDivisionError as overflow_error:")], ["C20"]),
     ("fixrevert_d4_soll_flag", [(VAL, """            tasks.append(
